@@ -63,6 +63,58 @@ CHECKS.update({
          "Outlines are in generic position w.r.t. picosvg's snap grid (computed from the scene data); the boundary L-shape and the collinear-endpoint leaf are recorded known findings.",
          "DESIGN.md section 6, C19"),
 })
+CHECKS.update({
+ "C08": ("model_checking",
+         "exhaustive schedule enumeration (every linear extension of the ninja graph driven one edge at a time, with strace footprints and sleep-set reduction) + deviation-bounded lattice over argument order, set iteration orders (hash seeds searched until every order is realised), -jN, build/working/source directories",
+         "Real `nanoemoji` command with SOURCE_DATE_EPOCH fixed: all permutations of the arguments, one hash seed per iteration order of the path / glyph-name sets (all n! orders realised and reported), ninja -j1/-j2/-j16, three build-dir and cwd placements, moved source dir, relative arguments, TOML glob, for a vector, an OT-SVG and a bitmap format; every linear extension of the 2-source (quick) / 3-source (thorough) graph executed through `ninja -j1 <target>` (the harness checks that exactly one edge runs per call); one sha256 per format.",
+         "Only str/Path-keyed sets depend on PYTHONHASHSEED (Color/int/tuple hashes do not). Sources from several directories in different relative order are outside the statement.",
+         "DESIGN.md section 6, C08"),
+ "C09": ("model_checking",
+         "explicit-state BFS over histories on materialised build-directory snapshots, with fault injection at every node class of the ninja graph",
+         "From a clean build, every history of <=2 (quick) / <=3 (thorough) events over {add, remove, modify, touch, rename, 8 option changes}, each followed by a real invocation on a copy of the snapshot; at depth 1 (2) every node class x {exit before writing, truncated output + SIGKILL of the step, + SIGKILL of ninja and driver} and two driver crash points; invariants in every state: a failed step fails the invocation, and one further fault-free invocation yields the bytes of a clean build of the final inputs.",
+         "States are not merged, so no abstraction argument is needed. Faults through PYTHONPATH sitecustomize / a PATH shim for resvg (no source hooks).",
+         "DESIGN.md section 6, C09"),
+ "C10": ("exploration",
+         "exhaustive products / word enumeration over pure hand-off functions against their inverse (round trips), with the ninja-quoting reference bound to one real ninja run",
+         "Every FontConfig with <=2 non-default fields through config.write/load (meta-check: every field has a dimension); {absent, v1, v2, explicit default} in file x as flag for every flag-backed field; every string of length <=3 over 10 characters as directory or stem x column mode x codepoints x glyph name through csv_line/load_from and through response-file quoting; all sequences <=4 over 13 codepoints for names/file names; parts JSON on every level-<=1 scene. exhaustive:true.",
+         "Pure functions only; what the CLI does with them is C20/C04.",
+         "DESIGN.md section 6, C10"),
+ "C11": ("model_checking",
+         "BFS over the Cayley graph of glyph orders (chained adjacent transpositions) plus every one-shot permutation from two base states, name-keyed facts + raw coverage probe as invariants",
+         "All 720 orders of 6 movable glyphs of a font with one lookup of every GSUB/GPOS type+format and every glyph-keyed GDEF structure (3 600 chained transposition transitions + 1 438 one-shot permutations), the same on a real nanoemoji COLRv1 font with GSUB; in every state the name-keyed reading of every table must equal the initial one and every coverage in the binary must be sorted.",
+         "O-FACTS' table of coverage/parallel-array pairs is written from the spec, independently of nanoemoji's rule table.",
+         "DESIGN.md section 6, C11"),
+ "C12": ("model_checking",
+         "deviation-bounded exhaustive lattice search (E1) on the real maximum_color command",
+         "Input kind (4 nanoemoji formats, third-party COLRv1/v0) x --bitmaps x --colr_version x --keep_glyph_names x space glyph x kerning/mark lookups x palettes x glyph names x zero-width colour glyph, <=1 (quick) / <=2 (thorough) deviations: name-keyed facts unchanged, tables added, pictures of all colour tables equal for every reachable colour glyph, O-STRUCT, stripped-names output equal except post.",
+         "CBDT pictures are compared loosely (pngquant, antialiasing); foreground colour is black in bitmaps.",
+         "DESIGN.md section 6, C12"),
+ "C13": ("model_checking",
+         "exhaustive word enumeration (E2) over transform-paint wrappers x fills x graph structures, two independent evaluators meeting through the converter",
+         "All words of length <=1 (+ all length-2 nestings for two fills; thorough: <=2) of the 10 static transform paints around the glyph and around the fill x 9 fills x structure variants, COLRv0, unsupported formats; SVG picture must equal COLR picture through the inverse placement; currentColor / var(--colorN) clauses; unsupported formats must raise or warn.",
+         "Test fonts are built with fontTools; one fixed parameter set per transform paint.",
+         "DESIGN.md section 6, C13"),
+ "C16": ("exploration",
+         "exhaustive full products of boundary alphabets through paint.transformed / apply_transform with a compile-decompile round trip",
+         "(i) b=c=0: 40 scale x 40 scale x 30 x 30 translation values (quick: <=3 entries off identity, 161k; thorough: all 1.44M); (ii) 8^6 general matrices; (iii) 8 gradient geometries x ~390 affines: emitted chain denotes the input; compiled and decompiled it raises or equals the input within fixed-point precision; gradient colours at corresponding points; uniform x residual = original. exhaustive:true.",
+         "fontTools raises on out-of-range fixed-point fields (measured).",
+         "DESIGN.md section 6, C16"),
+ "C17": ("fault_enumeration",
+         "exhaustive enumeration of defect class x position x format on the real command line",
+         "12 single-config defect classes x position of the defective source among 0-2 valid ones x applicable colour-format families on the real CLI in a fresh directory (must exit non-zero, no Font.ttf), 2 multi-master defect classes x master order, 6 classes in-process x all applicable formats of the 13.",
+         "Palette conflicts demanded only of COLR builds; content defects not demanded of untouchedsvg/bitmap builds.",
+         "DESIGN.md section 6, C17"),
+ "C18": ("model_checking",
+         "deviation-bounded exhaustive lattice search (E1) on the real CLI with multi-master TOML; instance = fontTools instancer + the oracle's own evaluation of the variable COLR table",
+         "Master derivation x master layout x axis range x metrics x width x scene, <=1/<=2 deviations: at every master location advance, layer list, outline positions and picture equal a static build of that master; default location; clip box contains interpolated outlines at t = 1/4, 1/2, 3/4.",
+         "The installed fontTools instancer does not instantiate COLR, so COLR variation is evaluated by vmc/oracles/colrvar.py (written from the spec).",
+         "DESIGN.md section 6, C18"),
+ "C20": ("model_checking",
+         "exhaustive enumeration field x {flag, file, both, omitted} and of configuration pairs built in one invocation, on the real CLI",
+         "Every FontConfig field that has an observable (meta-check) x 4 ways of giving it, observable read from the emitted font/build dir; pairs of 11 configurations sharing sources in one invocation (quick: 36 pairs, thorough: all 110 ordered pairs), each font byte-compared with the font its configuration produces alone; PIPE<->CLI conformance builds.",
+         "fea_file and ignore_reuse_error have no observable in the statement.",
+         "DESIGN.md section 6, C20"),
+})
 PENDING = {}  # id -> reason it is not claimed (yet)
 
 def main():
